@@ -332,6 +332,8 @@ IMPORTS = [('C05', 'C05.KEY'), ('C02', 'C02.OWN'), ('C09', 'C09.STEP'), ('C04', 
 
 EXPLANATION = EXPLANATION + ' C06.SUBMIT covers pending values that are opaque and pending values that are the smallest member of their domain (0, 0.0, the empty text, an empty BLOB built by its constructor): a pending value is submitted whatever its truth value.'
 
+EXPLANATION = EXPLANATION + " C06.KEY's world also holds a second instance of the addressed driver's class, created later under another name: a write must land on the addressed instance."
+
 RULES = [
     ("C06.KEY", rule_key, "dispatch: exactly the named elements of the addressed, kind-matching property; nothing else"),
     ("C06.SUBMIT", rule_submit, "client submit: one message, own address, exactly the pending parts, pending cleared"),
